@@ -331,9 +331,13 @@ def interp(p):
         return Val("u", v.cls, None)
     if op == CQSUBS:
         _, f, dom, cod, ents = p
-        m = gates.scalar(build_expr(ents[0])).eval(mixed=True)
-        assert isinstance(m, cqmap.CQMap)
-        return Val("t", CTEN, m.subs(*build_form(f)))
+        # dom / cod: quantum dimensions; entries: prod(dom)^2 * prod(cod)^2 of them
+        qd = cqmap.Q(tensor.Dim(*dom)) if dom else cqmap.CQ()
+        qc = cqmap.Q(tensor.Dim(*cod)) if cod else cqmap.CQ()
+        m = cqmap.CQMap(qd, qc, [build_expr(e) for e in ents])
+        r = m.subs(*build_form(f))
+        assert not r.dom and not r.cod
+        return Val("q", CTEN, r)
     raise ValueError("opcode %r" % (op,))
 
 
@@ -348,6 +352,8 @@ def canon_value(v):
         t = v.obj
         return [2, canon_ty(CTEN, t.dom), canon_ty(CTEN, t.cod),
                 [enc_expr(x) for x in t.array.flatten()]]
+    if v.tag == "q":     # result of CQMap.subs with empty types
+        return [2, [], [], [enc_expr(x) for x in v.obj.array.flatten()]]
     if v.tag == "f":
         return [3, v.obj]
     return [4]
